@@ -53,6 +53,35 @@ def _mutate(d, how):
         d["baseScore"] = -1.0
 
 
+FOREIGN = ("none", "string", "int", "own-class", "other-class", "other-version-object", "object", "json-dict", "scores-tuple", "list")
+
+
+def foreign(token, ver, s, o):
+    """comparands of other types, named by a token so that the sequence stays a plain JSON list"""
+    cl = obs.classes()
+    other = {"2": "3", "3": "4", "4": "2"}[ver]
+    if token == "none":
+        return None
+    if token == "string":
+        return s
+    if token == "int":
+        return 7
+    if token == "own-class":
+        return cl[ver]
+    if token == "other-class":
+        return cl[other]
+    if token == "other-version-object":
+        V = spec.VERS[other]
+        return cl[other](ref.build(V.prefixes[-1], dict((k, V.table[k][0]) for k in V.mandatory), list(V.mandatory)))
+    if token == "object":
+        return object()
+    if token == "json-dict":
+        return o.as_json()
+    if token == "scores-tuple":
+        return o.scores()
+    return [o]
+
+
 def check_ops(inp):
     ver, s, ops = inp["ver"], inp["s"], inp["ops"]
     ref.parse(ver, s)
@@ -84,7 +113,12 @@ def check_ops(inp):
                 if not (o == twin) or not (twin == o) or hash(o) != hash(twin) or (o != twin):
                     fails.append(failure("object equals its twin", "not equal", note="after %s" % history[-6:-1]))
             elif kind == "compare_foreign":
-                (o == op[1])
+                x = foreign(op[1], ver, s, o)
+                r = [bool(o == x), bool(o != x), bool(x == o), bool(x != o)]
+                f = C(s)                     # what a fresh object answers (WHICH answer is right is C07's business)
+                want = [bool(f == x), bool(f != x), bool(x == f), bool(x != f)]
+                if r != want:
+                    fails.append(failure(want, r, note="==, != against a %s, both ways round, after %s" % (op[1], history[-6:-1])))
         except BaseException as e:  # noqa
             fails.append(failure("no exception", "%s: %s" % (type(e).__name__, e), note="step %r after %s" % (op, history[-6:-1])))
         if fails:
@@ -230,10 +264,26 @@ def hyp_part(n_examples, shard, steps):
             if not (o == twin) or not (twin == o) or hash(o) != hash(twin) or (o != twin):
                 self._fail("object equals its twin", "not equal", "eq/hash against a twin")
 
+        @rule(token=st.sampled_from(FOREIGN))
+        def compare_foreign(self, token):
+            self.ops.append(["compare_foreign", token])
+            self.foreign = True
+            try:
+                x = foreign(token, self.ver, self.s, self.o)
+                r = [bool(self.o == x), bool(self.o != x), bool(x == self.o), bool(x != self.o)]
+                f = obs.classes()[self.ver](self.s)
+                want = [bool(f == x), bool(f != x), bool(x == f), bool(x != f)]
+            except BaseException as e:  # noqa
+                self._fail("no exception", "%s: %s" % (type(e).__name__, e), "== / != against a %s" % token)
+            if r != want:
+                self._fail(want, r, "==, != against a %s differs from a fresh object's answer" % token)
+
         def teardown(self):
             if self.s is None:
                 return
             inp = {"ver": self.ver, "s": self.s, "ops": list(self.ops)}
+            if getattr(self, "foreign", False):
+                part.classes["compared-with-foreign-type"] += 1
             part.count(inp, nontrivial=(self.repeat_after_other or self.mutated) and len(self.ops) >= 3,
                        classes=("v" + self.ver, "mutated" if self.mutated else "no-mutation", "len>=10" if len(self.ops) >= 10 else "len<10"))
             fails = check_ops(inp)     # final sweep through the replayable check itself
@@ -270,4 +320,4 @@ def run(tier, t0):
             "forced thread switches")
     return runner.finish(part, tier, t0, rule,
                          ["only observable results are compared (vars(obj) is not: benign memoisation must not alarm)"],
-                         required=("v2", "v3", "v4", "mutated", "len>=10", "shared-object", "shared:switches>=3"))
+                         required=("v2", "v3", "v4", "mutated", "len>=10", "compared-with-foreign-type", "shared-object", "shared:switches>=3"))
